@@ -246,7 +246,7 @@ func runC03(c *core.Ctx) error {
 	if err := c03Exhaustive(c, c.Pick(2, 3)); err != nil {
 		return err
 	}
-	c.Extra["exhaustive"] = fmt.Sprintf("all byte strings of length <= %d", c.Pick(2, 3))
+	c.Extra["exhaustive_part"] = fmt.Sprintf("all byte strings of length <= %d", c.Pick(2, 3))
 	n := c.Pick(20000, 1500000)
 	cfg := core.DefaultGen
 	for done := 0; done < n; {
